@@ -90,7 +90,12 @@ OUTPUTTYPES = {
     "PartitionAndSumsTuple": out.PartitionAndSumsTuple, "PartitionAndSums": out.PartitionAndSums,
 }
 
-FORMATS = ("list", "array", "dict_str", "dict_int", "names")
+FORMATS = ("list", "array", "dict_str", "dict_int", "names", "names_rep", "array_names")
+
+
+class NamedValues(dict):
+    """name -> value, plus the list of names as presented (which may repeat a name: format names_rep)"""
+    names_list = None
 
 
 def objective(spec):
@@ -120,6 +125,19 @@ def present(values, fmt):
         return values, None, None
     if fmt == "array":
         return np.array(values, dtype=np.int64) if all(isinstance(v, int) for v in values) else np.array(values), None, None
+    if fmt == "names_rep":
+        # one name per distinct VALUE (anti-correlated), so equal values are the same name repeated in the list
+        distinct = sorted(set(values), reverse=True)
+        label = {v: "v%02d" % r for r, v in enumerate(distinct)}
+        d = NamedValues((label[v], v) for v in distinct)
+        d.names_list = [label[v] for v in values]
+        return list(d.names_list), d.__getitem__, d
+    if fmt == "array_names":
+        # a numpy array of integer identifiers + a value function
+        nm = names_for(values, "int")
+        d = NamedValues(zip(nm, values))
+        d.names_list = list(nm)
+        return np.array(nm, dtype=np.int64), (lambda x, d=d: d[int(x)]), d
     kind = "int" if fmt == "dict_int" else "str"
     nm = names_for(values, kind)
     d = dict(zip(nm, values))
@@ -220,9 +238,12 @@ def repro_snippet(case):
     if fmt == "array":
         it = f"np.array({list(case['items'])!r})"
         vo = ""
-    elif fmt == "names":
-        it = repr(list(d.keys()))
-        vo = f", valueof={d!r}.__getitem__"
+    elif fmt in ("names", "names_rep"):
+        it = repr(list(getattr(d, "names_list", None) or d.keys()))
+        vo = f", valueof={dict(d)!r}.__getitem__"
+    elif fmt == "array_names":
+        it = f"np.array({list(d.keys())!r})"
+        vo = f", valueof=lambda x: {dict(d)!r}[int(x)]"
     else:
         it = repr(items)
         vo = ""
